@@ -22,6 +22,7 @@ if not os.path.exists(wt):
     subprocess.run(["git", "-C", "/repo", "worktree", "add", "--detach", wt, "HEAD"], check=True)
 subprocess.run("git checkout -q --detach $(git -C /repo rev-parse HEAD) && git checkout -- . && git clean -fdq -e target",
                cwd=wt, shell=True, check=True)
+subprocess.run("touch crates/parser/src/generated/*", cwd=wt, shell=True)  # else build.rs re-runs parol (30+ min)
 subprocess.run(["git", "apply", os.path.join(d, "patch.diff")], cwd=wt, check=True)
 t0 = time.time()
 env = dict(os.environ, VERIF_REPO=wt, VERIF_SEED=a.seed)
